@@ -22,14 +22,15 @@ import itertools, multiprocessing, concurrent.futures
 from .common import *
 from . import c18_impl as I
 
-FULL = ['export', 'export_nobn', 'summary', 'cost', 'get_cost:a', 'set_spec:dict', 'set_spec:single_a', 'set_spec:single_b', 'forward', 'train_step']
-MID = ['export', 'summary', 'cost', 'get_cost:a', 'set_spec:dict', 'set_spec:single_a', 'forward']
-SMALL = ['export', 'summary', 'cost', 'set_spec:single_b', 'forward']
-ALPH = {'full': FULL, 'mid': MID, 'small': SMALL}
-STATE = ('params', 'buffers', 'train_wrapper', 'train_seed', 'train_leaves_all', 'train_leaves_any', 'flags', 'theta', 'rng', 'reqgrad')
+ALL = ['export', 'export_nobn', 'summary', 'cost', 'get_cost:a', 'get_cost:b', 'set_spec:dict', 'set_spec:single_a', 'set_spec:single_b', 'forward', 'train_step', 'flip_sub']
+FULL = [o for o in ALL if o not in ('export_nobn', 'set_spec:single_b')]       # + export_nobn on PIT (the only method that accepts it)
+MID = ['export', 'summary', 'cost', 'get_cost:a', 'get_cost:b', 'set_spec:dict', 'set_spec:single_a', 'forward']
+SMALL = ['export', 'summary', 'get_cost:a', 'get_cost:b', 'forward']
+ALPH = {'full': FULL, 'full_pit': ['export_nobn'] + FULL, 'mid': MID, 'small': SMALL}
+STATE = ('params', 'buffers', 'train_wrapper', 'train_seed', 'train_leaves_all', 'train_leaves_any', 'train_sub_all', 'train_sub_any', 'flags', 'theta', 'rng', 'reqgrad')
 DERIVED = ('cost', 'summary', 'export', 'output')
 GROUP = {'params': 'parameters', 'buffers': 'buffers', 'train_wrapper': 'training-mode', 'train_seed': 'training-mode', 'train_leaves_all': 'training-mode',
-         'train_leaves_any': 'training-mode', 'flags': 'training-mode', 'theta': 'sampled-coefficients', 'rng': 'rng', 'reqgrad': 'requires-grad',
+         'train_leaves_any': 'training-mode', 'train_sub_all': 'training-mode', 'train_sub_any': 'training-mode', 'flags': 'training-mode', 'theta': 'sampled-coefficients', 'rng': 'rng', 'reqgrad': 'requires-grad',
          'cost': 'cost', 'summary': 'summary', 'export': 'export', 'output': 'output'}
 
 
@@ -43,12 +44,17 @@ def all_cfgs():
         for gumbel in ((False,) if method == 'PIT' else (False, True)):
             for fc in (True, False):
                 for train in (True, False):
-                    out.append(dict(method=method, full_cost=fc, train=train, gumbel=gumbel, spec0='single_a' if fc else 'dict', prefix=()))
+                    # full_cost: dict specification (both orders of get_cost are then inside depth 2), uniform flags;
+                    # otherwise single specification and MIXED flags: BatchNorm / Dropout / samplers start with the flag
+                    # opposite to the wrapper's (frozen BN in training, the converse in eval)
+                    sub = {'PIT': ('bn', 'drop'), 'MPS': ('sampler',), 'SuperNet': ('bn', 'drop', 'sampler') if gumbel else ('bn', 'drop')}[method]
+                    out.append(dict(method=method, full_cost=fc, train=train, gumbel=gumbel, spec0='dict' if fc else 'single_a', prefix=(), sub=sub, mixed=not fc))
     return out
 
 
 def cfg_name(c):
-    return '%s/%s/%s/%s/%s' % (c['method'], 'gumbel' if c['gumbel'] else 'softmax', 'train' if c['train'] else 'eval', 'full_cost' if c['full_cost'] else 'nas_cost', c['spec0'])
+    return '%s/%s/%s/%s/%s/%s' % (c['method'], 'gumbel' if c['gumbel'] else 'softmax', 'train' if c['train'] else 'eval', 'full_cost' if c['full_cost'] else 'nas_cost', c['spec0'],
+                                  ('mixed:' if c.get('mixed') else 'S=') + '+'.join(c.get('sub', ())))
 
 
 def _task(t):
@@ -87,6 +93,10 @@ def step_oracle(cfg, path, ob, fp, par, fails):
             exp = par['export']
         elif op == 'summary':
             exp = par['summary']
+        elif op == 'cost':
+            exp = par['costs']['cost']       # the value a copy of the model gave for this metric when it was read FIRST
+        elif op.startswith('get_cost:'):
+            exp = par['costs'][op.split(':')[1]]
         if exp is not None and ob != exp:
             fails.append(('%s-result-differs-from-earlier-one:%s' % (opn, tag), dict(info, got=ob, expected=exp),
                           '%s on %s after %s returned %s, the same call on a copy of the model before it returned %s' % (op, cfg_name(cfg), list(path[:-1]), ob, exp)))
@@ -135,7 +145,8 @@ def coq_cfg(c):
     m = {'PIT': 'PIT', 'MPS': 'MPS', 'SuperNet': 'SN'}[c['method']]
     has_bn = c['method'] in ('PIT', 'SuperNet')
     has_drop = c['method'] in ('PIT', 'SuperNet')
-    return '(mkCfg %s %s %s %s true %s)' % (m, coq(c['gumbel']), coq(has_bn), coq(has_drop), coq(c['full_cost']))
+    sub = c.get('sub', ())
+    return '(mkCfg %s %s %s %s true %s %s %s %s)' % (m, coq(c['gumbel']), coq(has_bn), coq(has_drop), coq('bn' in sub), coq('drop' in sub), coq('sampler' in sub), coq(c['full_cost']))
 
 
 SPEC_COQ = {'single_a': 'SingleA', 'single_b': 'SingleB', 'dict': 'DictAB'}
@@ -146,7 +157,7 @@ def coq_op(op):
         return '(OSetSpec %s)' % SPEC_COQ[op.split(':')[1]]
     if op.startswith('get_cost:'):
         return '(OGetCost "%s"%%string)' % op.split(':')[1]
-    return {'export': 'OExport', 'export_nobn': 'OExportNoBn', 'summary': 'OSummary', 'cost': 'OCost', 'forward': 'OForward', 'train_step': 'OTrainStep'}[op]
+    return {'export': 'OExport', 'export_nobn': 'OExportNoBn', 'summary': 'OSummary', 'cost': 'OCost', 'forward': 'OForward', 'train_step': 'OTrainStep', 'flip_sub': 'OFlip'}[op]
 
 
 def compare_path(cfg, path, nodes, mres, mism):
@@ -155,7 +166,7 @@ def compare_path(cfg, path, nodes, mres, mism):
     n = 0
     fps = [nodes[path[:i]][1] for i in range(len(path) + 1)]
     obs = [nodes[path[:i + 1]][0] for i in range(len(path))]
-    init = (0, 0, (cfg['train'],) * 3, ('TInit',), 0, (SPEC_COQ[cfg['spec0']],), False)
+    init = (0, 0, (cfg['train'],) * 3 + (cfg['train'] != bool(cfg.get('mixed')),), ('TInit',), 0, (SPEC_COQ[cfg['spec0']],), False)
     k = len(cfg.get('prefix', ()))
     sts = ([init] + [r[1] for r in mres])[k:]
     mobs = [r[0] for r in mres][k:]
@@ -163,9 +174,10 @@ def compare_path(cfg, path, nodes, mres, mism):
     def bad(what, i, model, impl):
         mism.append({'what': what, 'cfg': cfg, 'ops': list(path), 'step': i, 'model': repr(model), 'impl': repr(impl)})
     for i, (st, fp) in enumerate(zip(sts, fps)):
-        pv, bv, (tw, ts, tl), th, rng, sp, pol = st
-        for nm, mv, iv in (('train_wrapper', tw, fp['train_wrapper']), ('train_seed', ts, fp['train_seed']), ('train_leaves(all)', tl, fp['train_leaves_all']),
-                           ('train_leaves(any)', tl, fp['train_leaves_any']), ('polluted', pol, fp['polluted']), ('spec', sp[0], SPEC_COQ[spec_after(cfg, path[:i])])):
+        pv, bv, (tw, ts, tl, tsub), th, rng, sp, pol = st
+        for nm, mv, iv in (('train_wrapper', tw, fp['train_wrapper']), ('train_seed', ts, fp['train_seed']), ('train_rest(all)', tl, fp['train_leaves_all']),
+                           ('train_rest(any)', tl, fp['train_leaves_any']), ('train_sub(all)', tsub, tsub if fp['train_sub_all'] is None else fp['train_sub_all']),
+                           ('train_sub(any)', tsub, tsub if fp['train_sub_any'] is None else fp['train_sub_any']), ('polluted', pol, fp['polluted']), ('spec', sp[0], SPEC_COQ[spec_after(cfg, path[:i])])):
             n += 1
             if mv != iv:
                 bad(nm, i, mv, iv)
@@ -202,24 +214,29 @@ def plan(ctx):
         cfgs = [c for c in cfgs if c['method'] in only.split(',')]
     main = [c for c in cfgs if c['train'] and (c['method'] == 'PIT' or c['gumbel'])]          # 2 + 2 + 2
     tasks = []
+    full = lambda c: 'full_pit' if c['method'] == 'PIT' else 'full'
+    # depth 3: the three main methods in training, one with uniform flags + dict specification, two with mixed flags + dict
+    deep3 = [dict(c, mixed=(c['method'] != 'MPS'), spec0='dict') for c in main if c['full_cost']]
     if ctx.quick:
         for c in cfgs:
-            tasks += [('dfs', c, 'full', 2, op) for op in FULL]
-        for c in [c for c in main if c['full_cost']]:
-            tasks += [('dfs', c, 'full', 3, op) for op in FULL]
+            tasks += [('dfs', c, full(c), 2, op) for op in ALPH[full(c)]]
+        for c in deep3:
+            tasks += [('dfs', c, full(c), 3, op) for op in ALPH[full(c)]]
         nlin = 4
     else:
-        for c in cfgs:
-            tasks += [('dfs', c, 'full', 3 if c['train'] else 2, op) for op in FULL]
-        for c in main:
+        for c in cfgs + deep3:
+            tasks += [('dfs', c, full(c), 3 if c['train'] else 2, op) for op in ALPH[full(c)]]
+        for c in deep3 + [c for c in main if not c['full_cost']][:1]:
             tasks += [('dfs', c, 'mid', 4, op) for op in MID]
-        for c in [c for c in main if c['full_cost']]:
+        for c in deep3:
             tasks += [('dfs', c, 'small', 5, op) for op in SMALL]
         nlin = 20
     for c in cfgs:
+        kinds = [k for k in I.KINDS if not (c['method'] == 'MPS' and k in ('bn', 'drop')) and not (c['method'] == 'PIT' and k == 'sampler')]
         for _ in range(nlin):
-            ops = [ctx.rng.choice(FULL) for _ in range(5)]
-            c2 = dict(c, spec0=ctx.rng.choice(I.SPECS), prefix=ctx.rng.choice([(), ('forward',)]))
+            ops = [ctx.rng.choice(ALL) for _ in range(5)]
+            sub = tuple(k for k in kinds if ctx.rng.random() < 0.5) or (ctx.rng.choice(kinds),)
+            c2 = dict(c, spec0=ctx.rng.choice(I.SPECS), prefix=ctx.rng.choice([(), ('forward',)]), sub=sub, mixed=ctx.rng.random() < 0.5)
             tasks.append(('lin', c2, ops))
     return tasks
 
@@ -228,7 +245,7 @@ def run(ctx):
     built = ctx.build()
     tasks = plan(ctx)
     ctx.rule = ('every op sequence over the alphabet up to the stated depth on each of 20 configurations (method x sampler x full_cost x train/eval), each run from scratch '
-                'on one freshly built live object + seeded length-5 histories; quick: full alphabet (10 ops) depth 2 on all '
+                'on one freshly built live object + seeded length-5 histories; quick: full alphabet (10 ops; 11 on PIT) depth 2 on all '
                 'configurations, depth 3 on 3; thorough: full depth 3 on the 10 training configurations (2 on the eval ones), 7-op alphabet depth 4 on 6, 5-op alphabet depth 5 on 3 (PIT, MPS-Gumbel, SuperNet-Gumbel, training, full_cost); '
                 'a case = one history; non-trivial = it contains an observer call; distinct = distinct (configuration, history)')
     tasks.sort(key=lambda t: -(len(ALPH[t[2]]) ** (t[3] - 1) if t[0] == 'dfs' else 1))
@@ -251,7 +268,7 @@ def run(ctx):
                          sample={'cfg': cfg_name(cfg), 'ops': list(path), 'last_result': ob, 'fingerprint': {k: fp[k] for k in ('params', 'train_seed', 'rng', 'cost', 'export')}})
         path_oracles(cfg, nodes, fails)
         for path in nodes:
-            if path and not any(path + (o,) in nodes for o in FULL):
+            if path and not any(path + (o,) in nodes for o in ALL):
                 leaves.append((cfg, nodes, path))
     ctx.exhaustive = True
     ctx.extra['exhaustive_part'] = 'all histories up to the stated depth over the stated alphabets (see rule); the 3 networks, their weights and the input batch are fixed'
@@ -274,7 +291,7 @@ def run(ctx):
     model_ok = built
     if built:
         try:
-            exprs = ['run_trace_t fixed %s %s %s [%s]' % (coq_cfg(c), coq(c['train']), SPEC_COQ[c['spec0']], '; '.join(coq_op(o) for o in tuple(c.get('prefix', ())) + path))
+            exprs = ['run_trace_t fixed %s %s %s [%s]' % (coq_cfg(c), coq(c['train']), coq(bool(c.get('mixed'))), SPEC_COQ[c['spec0']], '; '.join(coq_op(o) for o in tuple(c.get('prefix', ())) + path))
                      for c, _, path in leaves]
             vals = ctx.coq_eval_sharded('cases', ['Plinio.Model.Observers'], '', exprs, shard=500)
             for (c, nodes, path), mres in zip(leaves, vals):
